@@ -263,4 +263,4 @@ pub fn junk_body(r: &mut Rng, kind: &str) -> Vec<u8> {
 }
 
 pub const JUNK_A: &[&str] = &["random", "pt_garbage", "pt_truncated", "wrong_marker", "huge_count", "deep", "tiny"];
-pub const JUNK_B: &[&str] = &["random", "pt_garbage", "pt_truncated", "wrong_marker", "huge_count", "deep", "hdr_truncated", "frag_hdr_short", "hdr_ok_term_bad", "hdr_ok_term_bad", "tiny", "tiny"];
+pub const JUNK_B: &[&str] = &["random", "pt_garbage", "pt_truncated", "wrong_marker", "huge_count", "deep", "hdr_truncated", "frag_hdr_short", "hdr_ok_term_bad", "hdr_ok_term_bad", "hdr_zero_refs_cache_ref", "hdr_zero_refs_cache_ref", "tiny", "tiny"];
